@@ -132,7 +132,7 @@ func c13filterCase(cs c13fcase) (sig, detail string) {
 			return fmt.Sprintf("%s / %s / filter applied %s", s, strings.ToLower(w.name), timesClass(cs.Times)), fmt.Sprintf("threshold %d value %q (%d bytes) stored as %d bytes", cs.T, abbreviate(origs[p]), len(origs[p]), len(stored))
 		}
 		// read back through a read request passing the same chain once
-		for _, rd := range []string{"get", "hget", "hgetall", "mgetchild", "getset"} {
+		for _, rd := range []string{"get", "hget", "hgetall", "mgetchild", "getset", "hscan"} {
 			var rreq *simpleRequest
 			var reply *RespValue
 			st := append([]byte{}, stored...)
@@ -149,13 +149,20 @@ func c13filterCase(cs c13fcase) (sig, detail string) {
 			case "hgetall":
 				rreq = newSimpleRequest(newStringArray("hgetall", "k"))
 				reply = newArray(*newBulkString("f"), *newBulkBytes(st))
+			case "hscan": // the values sit one level deeper: [cursor, [field, value]]
+				rreq = newSimpleRequest(newStringArray("hscan", "k", "0"))
+				reply = newArray(*newBulkString("0"), *newArray(*newBulkString("f"), *newBulkBytes(st)))
 			}
 			chain.Do(rreq)
 			rreq.SetResponse(reply)
 			got := rreq.Response()
 			var val []byte
 			if got.Type == Array {
-				val = got.Array[len(got.Array)-1].Text
+				last := got.Array[len(got.Array)-1]
+				if last.Type == Array && len(last.Array) > 0 {
+					last = last.Array[len(last.Array)-1]
+				}
+				val = last.Text
 			} else {
 				val = got.Text
 			}
@@ -288,7 +295,7 @@ type c13hcase struct {
 var c13hvals = [][]byte{[]byte("tiny"), c13pattern("run", 3000), c13pattern("rnd", 300), c13pattern("text", 90)}
 
 var c13opNames = []string{"enable(8)", "enable(64)", "disable", "SET short", "SET run3000", "SET rnd300", "HSET text90", "MSET run3000+short", "SETEX run3000",
-	"GET", "HGET", "MGET", "move-group", "start-migration", "GETSET short", "remove-compression-section"}
+	"GET", "HGET", "MGET", "move-group", "start-migration", "GETSET short", "remove-compression-section", "APPEND"}
 
 func c13history(cs c13hcase) (sig, detail string) {
 	body := func() {
@@ -299,6 +306,8 @@ func c13history(cs c13hcase) (sig, detail string) {
 		k1 := cl.KeyInGroup("k", 0, 0)
 		k2 := cl.KeyInGroup("k", 0, 1)
 		hk := cl.KeyInGroup("h", 0, 0)
+		k3 := cl.KeyInGroup("a", 0, 2)
+		enabled := false
 		model := map[string][]byte{}
 		moved := false
 		name := func(i int) string { return c13opNames[cs.Ops[i]] }
@@ -315,6 +324,7 @@ func c13history(cs c13hcase) (sig, detail string) {
 					sig, detail = "config-update-rejected", err.Error()
 					return
 				}
+				enabled = op != 2
 				continue
 			case 3:
 				args = []string{"SET", k1, string(c13hvals[0])}
@@ -353,12 +363,16 @@ func c13history(cs c13hcase) (sig, detail string) {
 				continue
 			case 14:
 				args = []string{"GETSET", k1, string(c13hvals[0])}
+			case 16:
+				// a command that is disabled while compression is enabled, on a key of its own
+				args = []string{"APPEND", k3, "x"}
 			case 15:
 				// compression switched off by deleting the whole section from the service configuration
 				if err := s.p.OnSvcConfigUpdate(vfSvcConfig(0, nil, 0)); err != nil {
 					sig, detail = "config-update-rejected", err.Error()
 					return
 				}
+				enabled = false
 				continue
 			}
 			var prev *resp.Value
@@ -370,12 +384,34 @@ func c13history(cs c13hcase) (sig, detail string) {
 				prev = &w
 				model[k1] = c13hvals[0]
 			}
+			mark := len(cl.Log)
 			got, err := c.Do(args...)
 			if err != nil {
 				sig, detail = "connection-failed", fmt.Sprintf("step %d %s: %v", i, name(i), err)
 				return
 			}
 			sched.WaitQuiescent()
+			if op == 16 {
+				reached := false
+				for _, e := range cl.DataCmds(mark) {
+					if strings.EqualFold(e.Args[0], "append") {
+						reached = true
+					}
+				}
+				hist := make([]string, i+1)
+				for j := range hist {
+					hist[j] = name(j)
+				}
+				switch {
+				case enabled && (got.Kind != '-' || reached):
+					sig, detail = "banned-command-not-rejected / append / compression enabled by a configuration update", fmt.Sprintf("history %v: APPEND replied %s, reached a backend: %v", hist, got, reached)
+					return
+				case !enabled && got.Kind == '-':
+					sig, detail = "command-rejected-although-compression-is-off / append", fmt.Sprintf("history %v: APPEND replied %s", hist, got)
+					return
+				}
+				continue
+			}
 			bulk := func(k string) resp.Value {
 				if v, ok := model[k]; ok {
 					return resp.Bulk(v)
@@ -463,7 +499,7 @@ func c13histories(env sched.Env) *sched.Report {
 	n := 0
 	var rec func(ops []int)
 	rec = func(ops []int) {
-		if len(ops) > 0 && (ops[len(ops)-1] >= 9 && ops[len(ops)-1] <= 11 || ops[len(ops)-1] == 14) { // histories ending in a read
+		if len(ops) > 0 && (ops[len(ops)-1] >= 9 && ops[len(ops)-1] <= 11 || ops[len(ops)-1] == 14 || ops[len(ops)-1] == 16) { // histories ending in a read or in the banned command
 			n++
 			if n%env.NShards == env.Shard {
 				if sched.PastDeadline(env.Deadline) {
